@@ -636,6 +636,58 @@ func newConn(dg bool, idle time.Duration, fc *fakenet.Conn) *transport.Tradition
 	return transport.NewDnsConn(transport.TraditionalDnsConnOpts{WithLengthHeader: !dg, IdleTimeout: idle, MaxConcurrentQuery: max}, fc)
 }
 
+// A silent server on a datagram connection: the query is retransmitted every second, but that must not push the
+// liveness deadline further out each time - otherwise an exchange with an unbounded context never returns. Real time:
+// 2.4 s (two retransmissions). Oracle: the read deadline in force after the retransmissions is not later than the one
+// in force before them (nothing but retransmissions happened in between), and firing it ends the exchange.
+func TestSilentDatagramServer(t *testing.T) {
+	man := hx.NewManual(t, true, "datagram connection, silent server, unbounded context, 2.4 s real time: retransmissions must not move the liveness deadline")
+	man.Case(map[string]any{"datagram": true, "retransmissions": 2}, func(ctx *hx.Ctx) *hx.Failure {
+		w := peer.NewWatcher()
+		fc := fakenet.New(true)
+		w.Install(0, fc)
+		dc := newConn(true, 5*time.Minute, fc)
+		defer dc.Close()
+		rx, _ := dc.ReserveNewQuery()
+		if rx == nil {
+			return hx.Failf("C07/harness", "no capacity")
+		}
+		done := make(chan error, 1)
+		go func() { _, err := rx.ExchangeReserved(context.Background(), peer.Query(9, "silent.c07.test.", 16)); done <- err }()
+		if !w.Wait("silent.c07.test.", 1, grace) {
+			return hx.Failf("C07/harness", "query not sent")
+		}
+		fc.WaitReaderIdle(grace)
+		time.Sleep(300 * time.Millisecond)
+		before, _ := fc.ReadDeadline()
+		first := fc.LastWriteAt()
+		if before.IsZero() || before.Sub(first) > 60*time.Second {
+			return hx.Failf("C07/liveness-deadline-too-far", "datagram connection, one query outstanding, silent server: the deadline in force is %v after the send", before.Sub(first).Round(time.Second))
+		}
+		time.Sleep(2100 * time.Millisecond)
+		sent := len(w.Seen("silent.c07.test."))
+		after, _ := fc.ReadDeadline()
+		if sent < 2 {
+			ctx.Class("inconclusive:no-retransmission-seen")
+		} else if after.Sub(before) > 200*time.Millisecond {
+			return hx.Failf("C07/liveness-deadline-moves-with-retransmissions", "datagram connection, silent server: after %d transmissions of the query the liveness deadline has moved %v further out (from %v to %v after the first send); with one retransmission per second an exchange with an unbounded context never ends", sent, after.Sub(before).Round(time.Millisecond), before.Sub(first).Round(time.Millisecond), after.Sub(first).Round(time.Millisecond))
+		}
+		fc.FireReadDeadline()
+		select {
+		case err := <-done:
+			if err == nil {
+				return hx.Failf("C07/harness", "silent server but the call succeeded")
+			}
+		case <-time.After(5 * time.Second):
+			return hx.Failf("C07/hang", "datagram connection, silent server: the liveness deadline passed but the exchange with an unbounded context did not return")
+		}
+		ctx.Nontrivial("silent-datagram-a")
+		ctx.Nontrivial("silent-datagram-b")
+		ctx.Sample(map[string]any{"transmissions": sent, "deadline_after_first_send_ms": before.Sub(first).Milliseconds()})
+		return nil
+	})
+}
+
 // The same ordering question for the non-pipelined transport: the read loop's idle deadline
 // must not replace the wait-reply deadline of the next exchange on the same connection.
 // The read loop's SetReadDeadline is held; an implementation that hands the reply over
